@@ -262,6 +262,9 @@ def lines_for_c14(rng, n):
                 s = bytearray(base)
                 s[pos] = val
                 add("E fromhex " + hx(s))
+                if val < 128 and case == "mixed":
+                    # FromStr must agree with from_hex on every string a &str can hold: every ASCII byte at every position
+                    add("E fromstr " + hx(s))
     # upper / lower / mixed renderings of the same value must decode alike
     for _ in range(40):
         h = rand_hash(rng)
